@@ -24,7 +24,8 @@ EXPLANATION = (
     "header end; (R5) the reported position is file position - header length + data of the preceding files, from the same "
     "cumulative table; (R6) cread/creadinto advance to the next file exactly when the request is not yet satisfied and the "
     "stream has not ended, appending at the right buffer offset; (R7) the stream table holds one entry per file in the given "
-    "order with that file's own header and data lengths, and totals are sums over it. Not decided: equality with a byte-array model over "
+    "order with that file's own header and data lengths, and totals are sums over it. Since F51 R1 also requires the reader's constructor to leave the stream at the first sample (_seek2hdr(0) after the base constructor). "
+    "Not decided: equality with a byte-array model over "
     "arbitrary operation histories (needs executing histories)."
 )
 FIO = "sigpyproc.io.fileio"
